@@ -369,22 +369,44 @@ func cmdCheck(args []string) int {
 			continue
 		}
 		seenClass[key] = true
-		cmd := exec.Command(exe, "replay", v.Replay)
-		cmd.Env = append(os.Environ(), "VERIF_DIR="+verifDir())
-		outb, err := cmd.CombinedOutput()
-		code := 0
-		if ee, ok := err.(*exec.ExitError); ok {
-			code = ee.ExitCode()
+		// Replay in a fresh process.  The library iterates over Go maps in places
+		// (the shipped NodesMap.ForEach, moveUpDescendants); on a correct tree the
+		// outcome does not depend on that order, but a defect may, and then a replay
+		// can run clean.  Such a case is replayed up to 24 times: a violation seen
+		// in the search and again in a fresh process is real and is reported with
+		// the count; one that never comes back stays machinery trouble (exit 2).
+		code, tries := 0, 0
+		var outb []byte
+		for tries < 24 {
+			tries++
+			cmd := exec.Command(exe, "replay", v.Replay)
+			cmd.Env = append(os.Environ(), "VERIF_DIR="+verifDir())
+			var err error
+			outb, err = cmd.CombinedOutput()
+			code = 0
+			if ee, ok := err.(*exec.ExitError); ok {
+				code = ee.ExitCode()
+			}
+			if code != 2 || !strings.Contains(string(outb), "not reproduced") {
+				break
+			}
 		}
 		if code != 1 {
-			fmt.Printf("TROUBLE: replay of %s did not reproduce the violation (exit %d): %s\n", v.Replay, code, tail(string(outb), 600))
+			fmt.Printf("TROUBLE: replay of %s did not reproduce the violation in %d tries (exit %d): %s\n", v.Replay, tries, code, tail(string(outb), 600))
 			exit = max2(exit, 2)
+			delete(seenClass, key) // another case of the same class may replay
 			continue
+		}
+		if tries > 1 {
+			fmt.Printf("note: %s reproduced at the %d. replay: the outcome depends on map iteration order inside the library\n", v.Replay, tries)
 		}
 		fmt.Printf("violation: property=%s class=%s node=%s step=%d minimised to %d steps (from %d): %s\n", v.V.Property, v.V.Class, v.V.Node, v.V.Step, v.Steps, v.Orig, v.V.Detail)
 		fmt.Printf("VIOLATION property=%s replay=%s\n", prop, v.Replay)
 		exit = 1
 		total.confirmed++
+	}
+	if total.confirmed > 0 {
+		exit = 1 // a violation confirmed by a fresh-process replay stands, whatever else went wrong
 	}
 	for _, fd := range f.OpenFor(prop) {
 		hits := 0
